@@ -93,9 +93,15 @@ def track_cases(rng, count):
             ystart = 0.0 if k < 4 else float(n - 1)
         data = [f32(math.exp(-0.5 * ((pmin + y * delta)) ** 2)) for x in range(n) for y in range(n)]
         cid = "t%d" % k
-        recs.append(dict(id=cid, n=n, fptrack=fptrack, e1=e1, delta=delta, yc=yc, ystart=ystart, steps=steps,
-                         optext="fptrack %s %d %d %d %d %d %d\nextra %s\ndata %s\nrun\n" % (
-                             cid, n, dt, fptrack, npart, steps, max(1, steps // 10),
+        # the Fokker-Planck variant of the map: a grid that is NOT damped (no term at all, or diffusion only) does not
+        # pull its particles towards zero energy either (tracking model 1 takes the drift from the map's own rows)
+        fptype = 3
+        if fptrack == 1 and k >= 8 and (k // 4) % 2 == 0:
+            fptype = rng.choice([0, 2])
+            ystart = f32(yc + rng.choice([5.0, -6.0, 3.0]))
+        recs.append(dict(id=cid, n=n, fptrack=fptrack, fptype=fptype, e1=e1, delta=delta, yc=yc, ystart=ystart, steps=steps,
+                         optext="fptrack %s %d %d %d %d %d %d %d\nextra %s\ndata %s\nrun\n" % (
+                             cid, n, dt, fptrack, npart, steps, max(1, steps // 10), fptype,
                              " ".join(f2h(x) for x in [e1, -6.0, 6.0, pmin, pmax, ystart]),
                              " ".join(f2h(x) for x in data))))
     return recs
@@ -112,6 +118,11 @@ def oracle_track(rec, lines):
     if rec["fptrack"] != 0 and not (1.0 <= ymin and ymax <= n - 1):
         return "tracked energies left the grid: range [%r, %r], grid rows 0..%d (tracking model %d)" % (
             ymin, ymax, n - 1, rec["fptrack"])
+    if rec["fptrack"] == 1 and rec.get("fptype", 3) in (0, 2):
+        k, mean, std = vals[-2]
+        if abs(mean - rec["ystart"]) > 0.3:
+            return ("tracking model 1 with a map without damping (FPType %d): the particles moved from row %.2f to %.2f in %d "
+                    "steps although the charge around them is not damped" % (rec["fptype"], rec["ystart"], mean, int(k)))
     if rec["fptrack"] == 3:
         k, mean, std = vals[-2]
         want_std = 1.0 / rec["delta"] / math.sqrt(1 - rec["e1"] / 2)
